@@ -40,6 +40,7 @@ import Octave.Model.Canon
 import Octave.Lemmas.Receipts
 namespace Octave.C01
 open Octave Lexer Emitter
+open Octave.ListDoc
 open Octave.ListDocParse (VLine vdocToks vdoc vmetaFirst parseDocument_vlines Top vdocWarns)
 
 /-- first key is not `META`. -/
@@ -198,7 +199,7 @@ theorem C02_list_content_preserved (env : Env) (name : Str) (lines : List LLine)
     simp [canonLL, LLine.node]
 
 /-- … the value of a list line read back is the list of its items' values, in order, with their types. -/
-theorem FValue.value_list (items : List FScalar) : (FValue.list items).value = .list (items.map FScalar.value) := rfl
+theorem value_list_eq (items : List FScalar) : (FValue.list items).value = .list (items.map FScalar.value) := rfl
 
 theorem canon_of_read' (env : Env) (text : Str) (d : Document) (out : Str) (reps : List Repair) (ws : List Parser.Warning)
     (h1 : Parser.parse env text = .ok d) (h2 : Parser.parseWithWarnings env text = .ok (d, reps, ws))
@@ -258,25 +259,25 @@ theorem C03_list_layouts_agree (env : Env) (name : Str) (ls₁ ls₂ : List LL) 
 
 /-! ### decidability of the hypotheses (for closed checks) -/
 
-instance (v : FScalar) : Decidable v.OK := by
+instance decScalarOK (v : FScalar) : Decidable v.OK := by
   cases v <;> (simp only [FScalar.OK]; infer_instance)
-instance (v : FScalar) : Decidable v.EmitOK := by
-  cases v <;> (simp only [FScalar.EmitOK]; infer_instance)
-instance (v : FValue) : Decidable v.OK := by
+instance decItemEmitOK (v : FScalar) : Decidable (ItemEmitOK v) := by
+  cases v <;> (simp only [ItemEmitOK]; infer_instance)
+instance decValueOK (v : FValue) : Decidable v.OK := by
   cases v with
   | scalar s => exact inferInstanceAs (Decidable s.OK)
   | list items => exact inferInstanceAs (Decidable (∀ x ∈ items, x.OK))
-instance (ln : LLine) : Decidable ln.OK := inferInstanceAs (Decidable (_ ∧ _ ∧ _))
-instance (ln : FLine) : Decidable ln.EmitOK := by
+instance decLLineOK (ln : LLine) : Decidable ln.OK := inferInstanceAs (Decidable (_ ∧ _ ∧ _))
+instance decFLineEmitOK (ln : FLine) : Decidable ln.EmitOK := by
   obtain ⟨key, v⟩ := ln
   cases v <;> (simp only [FLine.EmitOK]; infer_instance)
-instance (ln : LLine) : Decidable ln.EmitOK := by
+instance decLLineEmitOK (ln : LLine) : Decidable ln.EmitOK := by
   obtain ⟨key, v⟩ := ln
   cases v with
   | scalar s => exact inferInstanceAs (Decidable (FLine.mk key s).EmitOK)
-  | list items => exact inferInstanceAs (Decidable (∀ x ∈ items, x.EmitOK))
+  | list items => exact inferInstanceAs (Decidable (∀ x ∈ items, ItemEmitOK x))
 
-def exLines : List LLine :=
+def lxLines : List LLine :=
   [ ⟨"E".toList, .list []⟩,
     ⟨"K".toList, .list [.bare "a".toList, .qstr "b c".toList]⟩,
     ⟨"N".toList, .list [.int 1, .int 2, .int 3]⟩,
@@ -286,32 +287,32 @@ def exLines : List LLine :=
     ⟨"T".toList, .list [.bool true, .qstr "true".toList]⟩,
     ⟨"S".toList, .scalar (.bool false)⟩ ]
 
-theorem exLines_ok : LinesOK exLines := by
+theorem lxLines_ok : LinesOK lxLines := by
   constructor
   · decide +kernel
   · decide +kernel
 
-example : ldocText "DOC".toList (canonLL exLines) =
+example : ldocText "DOC".toList (canonLL lxLines) =
     "===DOC===\nE::[]\nK::[a,\"b c\"]\nN::[\n  1,\n  2,\n  3\n]\nALL::[\n  \"x \\\"y\\\" , ] [ \\\\ z\",\n  word,\n  true,\n  null,\n  -42\n]\nA::[\n  \"true<x>\"\n]\nPATTERN::[a,b]\nT::[true,\"true\"]\nS::false\n===END===\n".toList := by
   decide +kernel
 
 /-- the canonical layouts: `[]`, ≤ 2 plain items on one line, ≥ 3 items or an annotation-shaped string one per line. -/
-example : exLines.map (fun ln => ln.v.canonLayout) =
+example : lxLines.map (fun ln => ln.v.canonLayout) =
     [.inline, .inline, .multi 2, .multi 2, .multi 2, .inline, .inline, .inline] := by decide +kernel
 
 /-- the theorems applied (not evaluated) to the example, whatever positions the nodes carry. -/
-example : ∃ text d', emit Env.ascii { name := "DOC".toList, sections := lnodesAt 40 (canonLL exLines) } = some text ∧
+example : ∃ text d', emit Env.ascii { name := "DOC".toList, sections := lnodesAt 40 (canonLL lxLines) } = some text ∧
     Parser.parse Env.ascii text = .ok d' ∧ emit Env.ascii d' = some text := by
-  have hno := nodesOf_lnodesAt (canonLL exLines) 40
+  have hno := nodesOf_lnodesAt (canonLL lxLines) 40
   rw [canonLL_fst] at hno
-  exact C01_list_fixed_point Env.ascii "DOC".toList exLines _ hno (by decide) (by decide) exLines_ok (by decide) (fun _ _ => rfl)
+  exact C01_list_fixed_point Env.ascii "DOC".toList lxLines _ hno (by decide) (by decide) lxLines_ok (by decide) (fun _ _ => rfl)
 
-example : ∃ text d', emit Env.ascii { name := "DOC".toList, sections := lnodesAt 40 (canonLL exLines) } = some text ∧
+example : ∃ text d', emit Env.ascii { name := "DOC".toList, sections := lnodesAt 40 (canonLL lxLines) } = some text ∧
     Parser.parse Env.ascii text = .ok d' ∧ d'.sections.length = 8 := by
-  have hno := nodesOf_lnodesAt (canonLL exLines) 40
+  have hno := nodesOf_lnodesAt (canonLL lxLines) 40
   rw [canonLL_fst] at hno
   obtain ⟨text, d', h1, h2, _, _, _, _, _, _, h9, _⟩ :=
-    C02_list_content_preserved Env.ascii "DOC".toList exLines _ hno (by decide) (by decide) exLines_ok (by decide) (fun _ _ => rfl)
+    C02_list_content_preserved Env.ascii "DOC".toList lxLines _ hno (by decide) (by decide) lxLines_ok (by decide) (fun _ _ => rfl)
   exact ⟨text, d', h1, h2, h9⟩
 
 /-- the task's own small cases: `K::[]`, `K::[a,"b c"]`, `K::[1,2,3]`. -/
@@ -344,58 +345,58 @@ example (is : List Int) (h : ∀ i ∈ is, (natStr i.natAbs).length ≤ 4300) :
 
 /-! ### the whole model evaluated on the same document (independent of the theorems) -/
 
-def exText : Str := ldocText "DOC".toList (canonLL exLines)
+def lxText : Str := ldocText "DOC".toList (canonLL lxLines)
 
-example : (match emit Env.ascii { name := "DOC".toList, sections := lnodesAt 40 (canonLL exLines) } with
-    | some t => t == exText | none => false) = true := by decide +kernel
-example : (match tokenize Env.ascii exText with
-    | .ok p => p == (ldocToks "DOC".toList (canonLL exLines), toksReps (ldocToks "DOC".toList (canonLL exLines))) | .error _ => false) = true := by
+example : (match emit Env.ascii { name := "DOC".toList, sections := lnodesAt 40 (canonLL lxLines) } with
+    | some t => t == lxText | none => false) = true := by decide +kernel
+example : (match tokenize Env.ascii lxText with
+    | .ok p => p == (ldocToks "DOC".toList (canonLL lxLines), toksReps (ldocToks "DOC".toList (canonLL lxLines))) | .error _ => false) = true := by
   decide +kernel
-example : isOkStr (canonStrict Env.ascii exText) exText = true := by decide +kernel
-example : isOkStr (canonLenient Env.ascii exText) exText = true := by decide +kernel
+example : isOkStr (canonStrict Env.ascii lxText) lxText = true := by decide +kernel
+example : isOkStr (canonLenient Env.ascii lxText) lxText = true := by decide +kernel
 
 /-! ### C03: other layouts of the same document -/
 
 /-- every list on one line. -/
-def exInline : List LL := exLines.map fun ln => (ln, .inline)
+def lxInline : List LL := lxLines.map fun ln => (ln, .inline)
 /-- every list one item per line: no indentation, one space, five spaces in turn. -/
-def exMulti : List LL := (exLines.zip [.multi 0, .multi 1, .multi 5, .multi 0, .multi 1, .multi 5, .multi 2, .inline])
+def lxMulti : List LL := (lxLines.zip [.multi 0, .multi 1, .multi 5, .multi 0, .multi 1, .multi 5, .multi 2, .inline])
 
-example : ldocText "DOC".toList exInline =
+example : ldocText "DOC".toList lxInline =
     "===DOC===\nE::[]\nK::[a,\"b c\"]\nN::[1,2,3]\nALL::[\"x \\\"y\\\" , ] [ \\\\ z\",word,true,null,-42]\nA::[\"true<x>\"]\nPATTERN::[a,b]\nT::[true,\"true\"]\nS::false\n===END===\n".toList := by
   decide +kernel
-example : ldocText "DOC".toList exMulti =
+example : ldocText "DOC".toList lxMulti =
     "===DOC===\nE::[\n]\nK::[\n a,\n \"b c\"\n]\nN::[\n     1,\n     2,\n     3\n]\nALL::[\n\"x \\\"y\\\" , ] [ \\\\ z\",\nword,\ntrue,\nnull,\n-42\n]\nA::[\n \"true<x>\"\n]\nPATTERN::[\n     a,\n     b\n]\nT::[\n  true,\n  \"true\"\n]\nS::false\n===END===\n".toList := by
   decide +kernel
 
-theorem exInline_fst : exInline.map Prod.fst = exLines := by decide +kernel
-theorem exMulti_fst : exMulti.map Prod.fst = exLines := by decide +kernel
+theorem lxInline_fst : lxInline.map Prod.fst = lxLines := by decide +kernel
+theorem lxMulti_fst : lxMulti.map Prod.fst = lxLines := by decide +kernel
 
 /-- the theorem applied: both spellings converge on the canonical text (a long list written on one line, short lists
 written one item per line), and agree with each other. -/
-example : canonStrict Env.ascii (ldocText "DOC".toList exInline) = .ok exText := by
-  have := (C03_list_layouts_converge Env.ascii "DOC".toList exInline (by decide) (by decide)
-    (by intro x hx; exact exLines_ok.1 x.1 (by rw [← exInline_fst]; exact List.mem_map.mpr ⟨x, hx, rfl⟩))
-    (by intro x hx; exact exLines_ok.2 x.1 (by rw [← exInline_fst]; exact List.mem_map.mpr ⟨x, hx, rfl⟩))
+example : canonStrict Env.ascii (ldocText "DOC".toList lxInline) = .ok lxText := by
+  have := (C03_list_layouts_converge Env.ascii "DOC".toList lxInline (by decide) (by decide)
+    (by intro x hx; exact lxLines_ok.1 x.1 (by rw [← lxInline_fst]; exact List.mem_map.mpr ⟨x, hx, rfl⟩))
+    (by intro x hx; exact lxLines_ok.2 x.1 (by rw [← lxInline_fst]; exact List.mem_map.mpr ⟨x, hx, rfl⟩))
     (by decide) (fun _ _ => rfl)).1
-  rw [this, exInline_fst]; rfl
-example : canonLenient Env.ascii (ldocText "DOC".toList exMulti) = .ok exText := by
-  have := (C03_list_layouts_converge Env.ascii "DOC".toList exMulti (by decide) (by decide)
-    (by intro x hx; exact exLines_ok.1 x.1 (by rw [← exMulti_fst]; exact List.mem_map.mpr ⟨x, hx, rfl⟩))
-    (by intro x hx; exact exLines_ok.2 x.1 (by rw [← exMulti_fst]; exact List.mem_map.mpr ⟨x, hx, rfl⟩))
+  rw [this, lxInline_fst]; rfl
+example : canonLenient Env.ascii (ldocText "DOC".toList lxMulti) = .ok lxText := by
+  have := (C03_list_layouts_converge Env.ascii "DOC".toList lxMulti (by decide) (by decide)
+    (by intro x hx; exact lxLines_ok.1 x.1 (by rw [← lxMulti_fst]; exact List.mem_map.mpr ⟨x, hx, rfl⟩))
+    (by intro x hx; exact lxLines_ok.2 x.1 (by rw [← lxMulti_fst]; exact List.mem_map.mpr ⟨x, hx, rfl⟩))
     (by decide) (fun _ _ => rfl)).2
-  rw [this, exMulti_fst]; rfl
-example : canonStrict Env.ascii (ldocText "DOC".toList exInline) = canonStrict Env.ascii (ldocText "DOC".toList exMulti) :=
-  (C03_list_layouts_agree Env.ascii "DOC".toList exInline exMulti (by rw [exInline_fst, exMulti_fst]) (by decide) (by decide)
-    (by intro x hx; exact exLines_ok.1 x.1 (by rw [← exInline_fst]; exact List.mem_map.mpr ⟨x, hx, rfl⟩))
-    (by intro x hx; exact exLines_ok.1 x.1 (by rw [← exMulti_fst]; exact List.mem_map.mpr ⟨x, hx, rfl⟩))
-    (by intro x hx; exact exLines_ok.2 x.1 (by rw [← exInline_fst]; exact List.mem_map.mpr ⟨x, hx, rfl⟩))
+  rw [this, lxMulti_fst]; rfl
+example : canonStrict Env.ascii (ldocText "DOC".toList lxInline) = canonStrict Env.ascii (ldocText "DOC".toList lxMulti) :=
+  (C03_list_layouts_agree Env.ascii "DOC".toList lxInline lxMulti (by rw [lxInline_fst, lxMulti_fst]) (by decide) (by decide)
+    (by intro x hx; exact lxLines_ok.1 x.1 (by rw [← lxInline_fst]; exact List.mem_map.mpr ⟨x, hx, rfl⟩))
+    (by intro x hx; exact lxLines_ok.1 x.1 (by rw [← lxMulti_fst]; exact List.mem_map.mpr ⟨x, hx, rfl⟩))
+    (by intro x hx; exact lxLines_ok.2 x.1 (by rw [← lxInline_fst]; exact List.mem_map.mpr ⟨x, hx, rfl⟩))
     (by decide) (fun _ _ => rfl) (fun _ _ => rfl)).1
 
 /-- … and the whole model evaluated on them. -/
-example : isOkStr (canonStrict Env.ascii (ldocText "DOC".toList exInline)) exText = true := by decide +kernel
-example : isOkStr (canonStrict Env.ascii (ldocText "DOC".toList exMulti)) exText = true := by decide +kernel
-example : isOkStr (canonLenient Env.ascii (ldocText "DOC".toList exMulti)) exText = true := by decide +kernel
+example : isOkStr (canonStrict Env.ascii (ldocText "DOC".toList lxInline)) lxText = true := by decide +kernel
+example : isOkStr (canonStrict Env.ascii (ldocText "DOC".toList lxMulti)) lxText = true := by decide +kernel
+example : isOkStr (canonLenient Env.ascii (ldocText "DOC".toList lxMulti)) lxText = true := by decide +kernel
 
 /-- any indentation, symbolic: a two-item list written one item per line behind `n` spaces converges on `[a,b]`. -/
 example (n : Nat) : canonStrict Env.ascii (ldocText "D".toList [(⟨"K".toList, .list [.bare "a".toList, .bare "b".toList]⟩, .multi n)])
@@ -418,7 +419,7 @@ example : (match canonStrict Env.ascii "===D===\nMETA::[a,b]\n===END===\n".toLis
 example : isOkStr (canonStrict Env.ascii "===D===\nK::[\"word\"]\n===END===\n".toList) "===D===\nK::[word]\n===END===\n".toList = true := by
   decide +kernel
 /-- `EmitOK` (scalar line): a bare word under `PATTERN` is force-quoted — but list items under `PATTERN` are not
-(`PATTERN::[a,b]` is in `exLines`): `_ALWAYS_QUOTE_KEYS` concerns assignment values and inline-map values only. -/
+(`PATTERN::[a,b]` is in `lxLines`): `_ALWAYS_QUOTE_KEYS` concerns assignment values and inline-map values only. -/
 example : isOkStr (canonStrict Env.ascii "===D===\nPATTERN::a\n===END===\n".toList) "===D===\nPATTERN::\"a\"\n===END===\n".toList = true := by
   decide +kernel
 /-- `OK` (items): a bare item with a reserved-word prefix does not lex (the emitter quotes such a string). -/
